@@ -393,6 +393,25 @@ ModelPtr Model::clone() const
     }
     applyEquivalenceMapToModel(map, m);
 
+    // Carry the identifiers of the mappings and of the connections over to the clone.
+    auto variableAt = [](const ComponentEntity *root, const IndexStack &stack) -> VariablePtr {
+        ComponentPtr c = root->component(stack.at(0));
+        for (size_t index = 1; index + 1 < stack.size(); ++index) {
+            c = c->component(stack.at(index));
+        }
+        return c->variable(stack.back());
+    };
+    for (const auto &entry : map) {
+        auto variable = variableAt(this, entry.first);
+        auto clonedVariable = variableAt(m.get(), entry.first);
+        for (const auto &equivalentStack : entry.second) {
+            auto equivalentVariable = variableAt(this, equivalentStack);
+            auto clonedEquivalentVariable = variableAt(m.get(), equivalentStack);
+            Variable::setEquivalenceMappingId(clonedVariable, clonedEquivalentVariable, Variable::equivalenceMappingId(variable, equivalentVariable));
+            Variable::setEquivalenceConnectionId(clonedVariable, clonedEquivalentVariable, Variable::equivalenceConnectionId(variable, equivalentVariable));
+        }
+    }
+
     return m;
 }
 
